@@ -511,7 +511,7 @@ func init() {
 				}
 			}
 			all := func(string) bool { return true }
-			return []*RuleResult{fr, ruleLiteral(c), tri, own, ruleEdgeByte(c, "graph"), vw, ruleRows(c), ruleDegSync(c, all), ruleCounts(c, all), ruleIrreflexive(c, "graph"), ruleSubword(c, func(f string) bool { return strings.HasSuffix(filepath.Dir(f), "/graph") }), ruleCtorClass(c)}
+			return []*RuleResult{fr, ruleLiteral(c), tri, own, ruleEdgeByte(c, "graph"), vw, ruleRows(c), ruleDegSync(c, all), ruleCounts(c, all), ruleIrreflexive(c, "graph"), ruleSubword(c, func(f string) bool { return strings.HasSuffix(filepath.Dir(f), "/graph") }), ruleRetainHelpers(c), ruleCtorClass(c)}
 		},
 		controls: func(ctl *Ctx) []*RuleResult {
 			fr := &RuleResult{Rule: "FRESH"}
